@@ -7,7 +7,9 @@ PROP = dict(
     assumptions=[
         "both lakes live on the real file engine in per-case scratch directories under TMPDIR",
         "a late query error counts as reported when the remote puller returns it, when a QueryError control message is present (ctrl=T with zng/zjson), or - for responses that cannot carry control messages - when GET /query/status/{id} reports it (documented API contract); set VERIF_C19_STRICT_INBAND=1 to treat status-endpoint-only reporting as a violation",
-        "empty id lists for Delete and sort-key-less CreatePool are outside the generated domain (the CLI never issues them)",
+        "empty id lists for Delete, sort-key-less CreatePool, empty branch names and names containing a single quote (documented as illegal) are outside the generated domain",
+        "how a rewrite (delete-where, compact) partitions equal branch contents into objects is not compared: it varies from run to run on one lake for pools whose objects tie on min/max (key `this`); such a history ends at that step (label state:layout-differs)",
+        "under compiler.Parallelism != 1 a query mismatch counts only if it reproduces in 6 consecutive attempts (some programs, e.g. `sort -r this | tail 2`, are nondeterministic under a parallelised scan)",
     ],
-    tests=[dict(name="TestServiceEquivalence", quick=(8, 40), thorough=(16, 500))],
+    tests=[dict(name="TestServiceEquivalence", quick=(8, 40), thorough=(16, 150), timeout=dict(quick=1500, thorough=3400))],
 )
